@@ -1812,3 +1812,50 @@ Theorem contract_no_local_or_shape_panic c st sa dr n0 a n o s :
 Proof.
   intros H Hi R. apply contract_next_no_panic. eapply contract_trace; eassumption.
 Qed.
+
+(* ================================================================== *)
+(* Samples: the contract is satisfiable (the follower trace of          *)
+(* RepInvSamples is contract-abiding)                                   *)
+(* ================================================================== *)
+Module ContractSamples.
+  Import Samples RepInvSamples.
+
+  Lemma f0_init_ok : init_ok cfg store3 f0.
+  Proof. split; [exact store3_inv|]. split; [reflexivity|]. split; vm_compute; discriminate. Qed.
+
+  Lemma app1_peer : peer_msgs_ok app1.
+  Proof.
+    split; intros E; [|vm_compute in E; discriminate E].
+    split; [cbn; repeat split; reflexivity|]. split; [repeat constructor; discriminate|].
+    split; [vm_compute; reflexivity|left; reflexivity].
+  Qed.
+
+  Lemma snapm_peer : peer_msgs_ok snapm.
+  Proof. split; intros E; [vm_compute in E; discriminate E|]. split; vm_compute; [discriminate|reflexivity]. Qed.
+
+  Example ex_contract_trace : exists a, crun (init_app cfg store3) f0 a f6.
+  Proof.
+    eexists.
+    eapply (crun_cons _ f0 (OStep app1) f1 no_out).
+    { apply AN_idle; reflexivity. } { exact app1_peer. } { vm_compute. reflexivity. } { vm_compute. reflexivity. }
+    eapply (crun_cons _ f1 OReady (fst rd1)).
+    { eapply AN_ready; [reflexivity|vm_compute; reflexivity]. } { exact I. } { vm_compute. reflexivity. }
+    { vm_compute. reflexivity. }
+    eapply (crun_cons _ (fst rd1) (OSetStore st1) f2 no_out).
+    { eapply AN_ents; [reflexivity|vm_compute; reflexivity]. } { exact I. } { vm_compute. reflexivity. }
+    { reflexivity. }
+    eapply (crun_cons _ f2 (OAdvance (snd rd1)) f3).
+    { apply AN_advance. reflexivity. } { exact I. } { vm_compute. reflexivity. } { vm_compute. reflexivity. }
+    eapply (crun_cons _ f3 (OStep snapm) f4 no_out).
+    { apply AN_idle; reflexivity. } { exact snapm_peer. } { vm_compute. reflexivity. } { vm_compute. reflexivity. }
+    eapply (crun_cons _ f4 OReady (fst rd2)).
+    { eapply AN_ready; [reflexivity|vm_compute; reflexivity]. } { exact I. } { vm_compute. reflexivity. }
+    { vm_compute. reflexivity. }
+    eapply (crun_cons _ (fst rd2) (OSetStore st2) f5 no_out).
+    { eapply AN_snap; [reflexivity|vm_compute; reflexivity]. } { exact I. } { vm_compute. reflexivity. }
+    { reflexivity. }
+    eapply (crun_cons _ f5 (OAdvance (snd rd2)) f6).
+    { apply AN_advance. reflexivity. } { exact I. } { vm_compute. reflexivity. } { vm_compute. reflexivity. }
+    apply crun_nil.
+  Qed.
+End ContractSamples.
